@@ -230,6 +230,102 @@ def nonzero_from_facts(term, facts, timeout_ms=5000):
     return sol.check() == z3.unsat
 
 
+def _numden(e, cache):
+    """(num, den) division-free z3 terms with e == num/den"""
+    k = e.get_id()
+    if k in cache:
+        return cache[k]
+    one = z3.RealVal(1)
+    kind = e.decl().kind()
+    ch = e.children()
+    if kind == z3.Z3_OP_DIV:
+        (n1, d1), (n2, d2) = _numden(ch[0], cache), _numden(ch[1], cache)
+        r = (n1 * d2, d1 * n2)
+    elif kind == z3.Z3_OP_MUL:
+        n, d = one, one
+        for c in ch:
+            nc, dc = _numden(c, cache)
+            n, d = n * nc, d * dc
+        r = (n, d)
+    elif kind in (z3.Z3_OP_ADD, z3.Z3_OP_SUB):
+        n, d = _numden(ch[0], cache)
+        for c in ch[1:]:
+            nc, dc = _numden(c, cache)
+            if z3.eq(d, dc):
+                n = n + nc if kind == z3.Z3_OP_ADD else n - nc
+            else:
+                n = n * dc + nc * d if kind == z3.Z3_OP_ADD else n * dc - nc * d
+                d = d * dc
+        r = (n, d)
+    elif kind == z3.Z3_OP_UMINUS:
+        n, d = _numden(ch[0], cache)
+        r = (-n, d)
+    else:
+        r = (e, one)
+    cache[k] = r
+    return r
+
+
+def same_value(a, b, cache):
+    """z3-checked: a and b are the same rational function"""
+    if z3.eq(a, b):
+        return True
+    (n1, d1), (n2, d2) = _numden(a, cache), _numden(b, cache)
+    return check_identity(n1 * d2 - n2 * d1, 3000)
+
+
+def abstract_ufs(terms):
+    """replace every application of an uninterpreted function (exp, cosf, sinf, FormFactor_*, ...) by
+    a fresh real constant; two applications get the SAME constant only if the functions are the same
+    and z3 confirms that their arguments are identical polynomials.  Proving the abstracted goal is
+    sound for the original one (no use of congruence beyond syntactically/identically equal arguments)."""
+    table = []          # (decl name, [arg terms], const)
+    cache = {}
+    ndcache = {}
+
+    def rec(e):
+        k = e.get_id()
+        if k in cache:
+            return cache[k]
+        ch = e.children()
+        if not ch:
+            cache[k] = e
+            return e
+        new_ch = [rec(c) for c in ch]
+        if e.decl().kind() == z3.Z3_OP_UNINTERPRETED:
+            nm = e.decl().name()
+            hit = None
+            for (n2, args2, const) in table:
+                if n2 == nm and len(args2) == len(new_ch) and all(
+                        same_value(a, b, ndcache) for a, b in zip(new_ch, args2)):
+                    hit = const
+                    break
+            if hit is None:
+                hit = z3.Real('uf!%s!%d' % (nm, len(table)))
+                table.append((nm, new_ch, hit))
+            cache[k] = hit
+            return hit
+        r = e.decl()(*new_ch)
+        cache[k] = r
+        return r
+    out = [rec(t) for t in terms]
+    return out, table
+
+
+def _has_uf(t):
+    seen = set()
+    stack = [t]
+    while stack:
+        e = stack.pop()
+        if e.get_id() in seen:
+            continue
+        seen.add(e.get_id())
+        if e.num_args() > 0 and e.decl().kind() == z3.Z3_OP_UNINTERPRETED:
+            return True
+        stack.extend(e.children())
+    return False
+
+
 def prove_eq(p, hyps, order, timeout=30, use_cache=True, want_groebner=True, facts=()):
     """Try to prove p == 0 from hyps (lists of z3 terms). order: symbol names, creation order.
     A certificate is (M, c_i) with  M*p == sum c_i h_i  as a polynomial identity (checked by z3)
@@ -245,13 +341,28 @@ def prove_eq(p, hyps, order, timeout=30, use_cache=True, want_groebner=True, fac
     if check_identity(p, 5000):
         out.update(status='discharged', detail='identity (no hypotheses needed)', n_cofactors=0)
         return fin()
+    if _has_uf(p) or any(_has_uf(h) for h in hyps):
+        (terms, table) = abstract_ufs([p] + list(hyps))
+        p, hyps = terms[0], terms[1:]
+        order = list(order) + [str(c_) for _, _, c_ in table]
+        out['detail'] = 'uninterpreted applications abstracted to %d constants; ' % len(table)
+        if check_identity(p, 5000):
+            out.update(status='discharged', detail=out['detail'] + 'identity', n_cofactors=0)
+            return fin()
     cache = {}
     try:
         p_s = z3_to_sympy(p, cache)
-        hyps_s_all = [z3_to_sympy(h, cache) for h in hyps]
     except ValueError as e:
-        out['detail'] = 'goal/hypothesis not polynomial: %s' % e
+        out['detail'] = 'goal not polynomial: %s' % e
         return fin()
+    hyps_ok, hyps_s_all = [], []
+    for h in hyps:
+        try:
+            hyps_s_all.append(z3_to_sympy(h, cache))
+            hyps_ok.append(h)
+        except ValueError:
+            continue          # a non-polynomial hypothesis is simply not used
+    hyps = hyps_ok
     zsyms = symbols_of(p)
     for h in hyps:
         symbols_of(h, zsyms)
@@ -285,7 +396,7 @@ def prove_eq(p, hyps, order, timeout=30, use_cache=True, want_groebner=True, fac
             mult, cof, detail, status = _find_cofactors(p_s, hyps_s, gens, want_groebner, timeout)
         except Exception as e:       # sympy failure: no proof, never a verdict
             mult, cof, detail, status = None, None, 'hint generator failed: %r' % (e,), 'unknown'
-        out['detail'] = detail
+        out['detail'] = out.get('detail', '') + detail if out.get('detail', '').startswith('uninterpreted') else detail
         if cof is None:
             out['status'] = status
             return fin()
